@@ -146,6 +146,15 @@ func (ctx *Context) applyAtRecursively(pos int) int {
 		}
 	}
 
+	// If the action budget was exhausted, drop the remaining nested actions:
+	// they must not leak into the next position or the next call to Apply.
+	if len(ctx.stack) > 0 {
+		if end := ctx.stack[0].EndPos; end > next {
+			next = end
+		}
+		ctx.stack = ctx.stack[:0]
+	}
+
 	return next
 }
 
